@@ -227,8 +227,8 @@ func cmdCheck(args []string) {
 	claimed := mine[:0:0]
 	var unclaimedNames []string
 	for _, o := range mine {
-		if r, ok := uncl.Unclaimed[o.Name]; ok {
-			unclaimedNames = append(unclaimedNames, o.Name+": "+r)
+		if r, ok := uncl.Unclaimed[o.Key()]; ok {
+			unclaimedNames = append(unclaimedNames, o.Key()+": "+r)
 			continue
 		}
 		claimed = append(claimed, o)
@@ -304,7 +304,7 @@ func cmdCheck(args []string) {
 		// known finding?
 		known := false
 		for _, f := range findings {
-			if f.status == "known" && f.property == *prop && f.obligation == name {
+			if f.status == "known" && f.property == *prop && (f.obligation == name || f.obligation == bad.Key()) {
 				fmt.Printf("KNOWN-FINDING: %s\n", f.text)
 				known = true
 			}
